@@ -8,6 +8,7 @@ import (
 	"fmt"
 	"os"
 	"path/filepath"
+	"regexp"
 	"sort"
 	"strings"
 	"time"
@@ -125,6 +126,8 @@ func (c *Ctx) Exception(symbol, reason string) {
 // Note adds a free-text note to the evidence.
 func (c *Ctx) Note(f string, a ...interface{}) { c.Notes = append(c.Notes, fmt.Sprintf(f, a...)) }
 
+var litRe = regexp.MustCompile(`\$\d+`)
+
 type known struct {
 	kind, property, rule, construct, text string
 }
@@ -177,9 +180,17 @@ func loadKnown(path string) []known {
 func (c *Ctx) Finish() int {
 	c.closeRule()
 	kn := loadKnown(filepath.Join(c.VerifDir, "known_findings.txt"))
-	isKnown := func(f Finding) (bool, string) {
-		for _, k := range kn {
-			if k.kind == "finding" && k.property == f.Property && k.rule == f.Rule && k.construct == f.Construct {
+	// a listed finding is identified by rule and construct (function:site). A site that a refactoring moved into a
+	// literal of the same function (F$1:site) is still that site — as long as the listed one is not reported as well:
+	// each listed finding answers for one report only.
+	usedKnown := map[int]bool{}
+	isKnown := func(f Finding, exact bool) (bool, string) {
+		for i, k := range kn {
+			if k.kind != "finding" || k.property != f.Property || k.rule != f.Rule || usedKnown[i] {
+				continue
+			}
+			if k.construct == f.Construct || (!exact && litRe.ReplaceAllString(f.Construct, "") == k.construct) {
+				usedKnown[i] = true
 				return true, k.text
 			}
 		}
@@ -206,10 +217,21 @@ func (c *Ctx) Finish() int {
 	})
 	var unknown []Finding
 	var knownHit []string
+	knownText := map[int]string{}
+	for _, exact := range []bool{true, false} {
+		for i := range fs {
+			if fs[i].Known {
+				continue
+			}
+			if ok, text := isKnown(fs[i], exact); ok {
+				fs[i].Known = true
+				knownText[i] = text
+			}
+		}
+	}
 	for i := range fs {
-		if ok, text := isKnown(fs[i]); ok {
-			fs[i].Known = true
-			fmt.Printf("KNOWN-FINDING: property=%s rule=%s construct=%s %s [%s]\n", c.ID, fs[i].Rule, fs[i].Construct, text, fs[i].Pos)
+		if fs[i].Known {
+			fmt.Printf("KNOWN-FINDING: property=%s rule=%s construct=%s %s [%s]\n", c.ID, fs[i].Rule, fs[i].Construct, knownText[i], fs[i].Pos)
 			knownHit = append(knownHit, fs[i].Rule+" "+fs[i].Construct)
 		} else {
 			unknown = append(unknown, fs[i])
@@ -220,7 +242,7 @@ func (c *Ctx) Finish() int {
 		if k.kind == "finding" && k.property == c.ID {
 			hit := false
 			for _, f := range fs {
-				if f.Known && f.Rule == k.rule && f.Construct == k.construct {
+				if f.Known && f.Rule == k.rule && (f.Construct == k.construct || litRe.ReplaceAllString(f.Construct, "") == k.construct) {
 					hit = true
 				}
 			}
